@@ -114,7 +114,7 @@ pub fn observe<K: KeyT, S: Sut<K>>(c: &S, uni: &[u64], fl: &Flags, ids: &mut Add
     c.extra(uni, &mut m);
     // read-only battery that every observation performs
     m.insert("len".into(), json!(c.c_len()));
-    m.insert("cap".into(), json!(c.c_cap()));
+    m.insert("cap".into(), json!(c.c_cap().min(2147483647)));      // TLC integers are 32-bit: usize::MAX is logged as 2^31-1
     m.insert("empty".into(), json!(c.c_empty()));
     let contains: Vec<u64> = uni.iter().copied().filter(|&k| c.c_contains(k)).collect();
     m.insert("contains".into(), json!(contains));
